@@ -24,7 +24,7 @@ from ..util import HarnessError, Info, cm_enter, cm_exit, expect, expect_eq, imp
 ID = "C03"
 ATHERIS = True  # thorough tier: coverage-guided second engine over the same strategy/run_case
 LEVEL = "exploration"
-BUDGET = {"quick": 10000, "thorough": 800000}
+BUDGET = {"quick": 10000, "thorough": 300000}
 RULE = (
     "case = (history building trie T1 - a plain trie, a pruning trie, or the batch trie inside "
     "an open squash_changes block -, 1-3 further edits giving sibling trie T2, a key "
